@@ -545,7 +545,10 @@ def confirm_native(binary, unit, vals):
     if rec.get("target") is not None and "target" in rec["mismatch"]:
         # llvm-mc cannot know where the label is: the target computation is ours; the second
         # opinion is on the displacement value, shown in the report
-        agree, want = False, att_agree(e, rel, lines)[1] + " ; target %s" % rec["target"]
+        d = rec["decoded"]
+        disp = d["rel"] if d["o1"]["kind"] == 4 else d["mem"]["disp"]
+        agree, want = False, "%s with the displacement that reaches the label at position %s (emitted at offset %d, length %d, displacement %d reaches position %d)" % (
+            att_agree(e, rel, lines)[1].split(" ")[0], rec["target"], rec["at"], d["len"], disp, rec["at"] + d["len"] + disp)
     else:
         agree, want = att_agree(e, rel, lines)
     only_legal = rec["mismatch"] == ["legal"]
